@@ -93,6 +93,7 @@ func runScenario(id string, s *Scenario, out *workerOut, deadline time.Time) {
 	}
 	x := &vs.Explorer{Opt: s.Opt, Bound: s.Bound, Prune: s.Prune && s.Bound < 0, MaxExecs: s.MaxExecs, Deadline: deadline, Shard: s.shard, NShards: s.nshards, Deviations: s.Deviations}
 	seenKey := map[string]bool{}
+	tried := map[string]int{}
 	x.Check = func(e *vs.Exec) string {
 		if e.Abort == "NONDETERMINISM" || e.Abort == "HANG" {
 			out.Machinery = append(out.Machinery, fmt.Sprintf("scenario %s: %s: %s (choices %v)", s.Name, e.Abort, e.AbortMsg, e.Choices()))
@@ -105,7 +106,10 @@ func runScenario(id string, s *Scenario, out *workerOut, deadline time.Time) {
 				out.Violations = append(out.Violations, vk.WorkerViolation{Key: key, Count: 1})
 				continue
 			}
-			seenKey[key] = true
+			if tried[key] >= 3 {
+				continue // three occurrences failed to reproduce on their own: reported through Unreproduced
+			}
+			tried[key]++
 			// determinism guard: the recorded schedule must reproduce the violation twice
 			choices := e.Choices()
 			ok := true
@@ -130,6 +134,7 @@ func runScenario(id string, s *Scenario, out *workerOut, deadline time.Time) {
 				out.Unreproduced = append(out.Unreproduced, unreproduced{Scenario: s.Name, Key: key, What: v.What, Choices: choices})
 				continue
 			}
+			seenKey[key] = true // only a reproduced occurrence makes later ones count
 			out.Violations = append(out.Violations, vk.WorkerViolation{Key: key, What: s.Name + ": " + v.What, Kind: "schedule",
 				Case: replayCase{Scenario: s.Name, Choices: choices, Detail: last.Describe()}, Count: 1})
 		}
